@@ -318,6 +318,71 @@ func propC19(c *Ctx) {
 		}
 	})
 
+	// the converse of R3: metadata is declared to carry NO perm channels only for a stated
+	// reason - it is empty, it does not parse (a JSON library call failed), the key is absent, or
+	// the strict decode failed.  Any other test on the bytes (a first-byte check, a length cap, a
+	// prefix) makes well-formed metadata skip registration and hand-over silently.
+	c.Rule("C19.R8", func() {
+		hp := c.Func(hookPkg, "hasPermChannels")
+		o := c.Ob("C19.R8", "hasPermChannels: false only for empty metadata, a failed JSON parse / strict decode, or an absent perm_channels key")
+		for _, p := range c.Paths(hp, PO{Params: []string{"metadata"}}) {
+			o.Paths++
+			if p.Panic || len(p.Ret) != 2 || !p.Ret[0].IsFalse() {
+				continue
+			}
+			o.Sites++
+			// empty, spelled through the length (== 0, < 1, !(> 0) ...): no fact allows len > 0
+			emptyLen := false
+			for i := range p.Events {
+				ev := &p.Events[i]
+				if ev.Kind != EvFact || ev.Cond == nil || ev.Cond.Op != "bin" || len(ev.Cond.Args) != 2 {
+					continue
+				}
+				for _, side := range ev.Cond.Args {
+					if k := strip(side).Key(); k == "builtin.len(metadata)" || k == "builtin.len(string(metadata))" {
+						if rel, n := p.RelationLin(len(p.Events), side, &Term{Op: "const", Name: "0", Typ: side.Typ}); n > 0 && rel&rGT == 0 {
+							emptyLen = true
+						}
+					}
+				}
+			}
+			reason := emptyLen || p.HasFact(len(p.Events), func(a *Term, pol bool) bool {
+				// empty: len(..metadata..) == 0 or string(metadata) == ""
+				if a.Op == "bin" && a.Name == "==" && pol {
+					for k := 0; k < 2; k++ {
+						x, y := a.Args[k], a.Args[1-k]
+						if y.IsConst() && (y.Name == "0" || y.Name == `""`) && strings.Contains(x.Key(), "metadata") && !strings.Contains(x.Key(), "[") {
+							return true
+						}
+					}
+				}
+				// absent key
+				if !pol && a.Op == "extract" && a.Name == "1" && a.Args[0].Op == "lookup" && a.Args[0].Args[1].Key() == `"perm_channels"` {
+					return true
+				}
+				// a JSON library call failed: (call == nil) is false, or json.Valid(..) is false
+				if x := eqOther(a, "nil"); x != nil && !pol {
+					for x.Op == "extract" {
+						x = x.Args[0]
+					}
+					if x.Op == "call" && strings.Contains(x.Name, "json.") {
+						return true
+					}
+				}
+				if !pol && a.Op == "call" && strings.HasSuffix(a.Name, "json.Valid") {
+					return true
+				}
+				return false
+			})
+			if !reason {
+				o.Fail(c.W.Pos(hp.Pos()), "metadata is declared to have no perm channels without being empty, failing to parse or lacking the key", c.Dump(p, -1))
+			}
+		}
+		if o.Sites < 3 {
+			o.Fail(c.W.Pos(hp.Pos()), fmt.Sprintf("only %d rejecting path(s) found (floor 3: empty, unparseable, key absent / strict decode failed)", o.Sites), nil)
+		}
+	})
+
 	c.Rule("C19.R5", func() {
 		for _, hn := range []string{"BridgeCreated", "BridgeChallengerUpdated", "BridgeMetadataUpdated"} {
 			errorDiscipline(c, "C19.R5", "hook."+hn, c.Method(hookPkg, "BridgeHook", hn), PO{Params: []string{"h", "ctx", "bridgeId", "cfg"}, NoInline: []string{"hasPermChannels"}, Pure: []string{"hasPermChannels"}, Visits: 3})
